@@ -1,12 +1,15 @@
 #!/usr/bin/env python3
 """selftest: apply every kept seeded change to /repo in turn and verify that the check(s) listed in
 its meta.json `caught_by` report a violation (exit 1 with a VIOLATION line), then restore /repo.
-usage: tools/selftest.py [seed-name ...]      (writes /verif/seeded/selftest_result.json)"""
+usage: tools/selftest.py [--first] [seed-name ...]   (writes seeded/selftest_result.json; --first: only the
+first check listed in caught_by; env VROOT / REPO select another copy of /verif and /repo)"""
 import json, glob, os, subprocess, sys, time
-ROOT = "/verif"
-names = sys.argv[1:]
+ROOT = os.environ.get("VROOT", "/verif")
+REPO = os.environ.get("REPO", "/repo")
+FIRST = "--first" in sys.argv
+names = [a for a in sys.argv[1:] if not a.startswith("--")]
 res = {}
-assert subprocess.run(["git", "-C", "/repo", "status", "--porcelain"], capture_output=True, text=True).stdout.strip() == "", "/repo is not clean"
+assert subprocess.run(["git", "-C", REPO, "status", "--porcelain"], capture_output=True, text=True).stdout.strip() == "", "/repo is not clean"
 for meta in sorted(glob.glob(f"{ROOT}/seeded/*/meta.json")):
     name = os.path.basename(os.path.dirname(meta))
     if names and name not in names:
@@ -16,21 +19,28 @@ for meta in sorted(glob.glob(f"{ROOT}/seeded/*/meta.json")):
         res[name] = {"expected": "not caught (documented)", "ok": True}
         continue
     patch = os.path.join(os.path.dirname(meta), "patch.diff")
-    a = subprocess.run(["git", "-C", "/repo", "apply", patch], capture_output=True, text=True)
+    a = subprocess.run(["git", "-C", REPO, "apply", patch], capture_output=True, text=True)
     if a.returncode != 0:
         res[name] = {"ok": False, "error": "patch does not apply: " + a.stderr[:200]}
         continue
     try:
         r = {}
-        for cid in m["caught_by"]:
+        for cid in (m["caught_by"][:1] if FIRST else m["caught_by"]):
             t = time.time()
             p = subprocess.run(["./check", cid, "quick"], cwd=ROOT, capture_output=True, text=True)
             r[cid] = {"rc": p.returncode, "violations": p.stdout.count("\nVIOLATION") + p.stdout.startswith("VIOLATION"), "wall_s": round(time.time() - t, 1)}
         res[name] = {"ok": all(v["rc"] == 1 and v["violations"] > 0 for v in r.values()), "checks": r}
     finally:
-        subprocess.run(["git", "-C", "/repo", "checkout", "--", "."])
+        subprocess.run(["git", "-C", REPO, "checkout", "--", "."])
     print(name, res[name], flush=True)
-json.dump(res, open(f"{ROOT}/seeded/selftest_result.json", "w"), indent=1)
+out = f"{ROOT}/seeded/selftest_result.json"
+if names or FIRST:
+    old = json.load(open(out)) if os.path.exists(out) else {}
+    old.update(res)
+    res_all = old
+else:
+    res_all = res
+json.dump(res_all, open(out, "w"), indent=1)
 bad = [k for k, v in res.items() if not v["ok"]]
 print("SELFTEST", "OK" if not bad else f"FAILED for {bad}")
 sys.exit(1 if bad else 0)
